@@ -89,7 +89,7 @@ theorem Rep.sim {K : PCtx} {σ σ' : X.St} {mem : Mem} (h : Rep K σ mem) (hs : 
    fun n hv => h.locs n (by unfold IsVar at hv ⊢; rw [hs.2.2.1]; exact hv), h.above,
    fun n hn => by rw [← hs.2.2.1]; exact h.gvis n hn, by rw [← hs.2.2.2.2]; exact h.depth,
    fun n r hr => h.aptr n r (by rw [readName_sim K.xc n σ σ' hs]; exact hr),
-   fun id cells hc => h.acells id cells (by rw [hs.2.1]; exact hc)⟩
+   fun id cells hc => h.acells id cells (by rw [hs.2.1]; exact hc), h.strs⟩
 
 theorem ExecAt.sim {t : Bool} {K : PCtx} {e' : AExpr} {v : Word} {σ σ' : X.St} (h : ExecAt t K e' v σ) (hs : Sim σ σ') :
     ExecAt t K e' v σ' := by
